@@ -375,8 +375,18 @@ def isint(eng, x):
 
 @spec
 def warned_unsat(eng):
-    """the library warned that the constraint cannot be satisfied (ghost list `warned`)"""
-    return any("cannot be satisfied" in str(w) for w in eng.warned)
+    """the library warned that the constraint cannot be satisfied (ghost list `warned`).
+    Inside the ensures of a contract applied at a call site this is the callee's own (symbolic) warning flag."""
+    st = getattr(eng, "apply_w_stack", None)
+    if st:
+        return SV(st[-1], "bool")
+    parts = []
+    for w in eng.warned:
+        if isinstance(w, SV):
+            parts.append(w.e)
+        elif "cannot be satisfied" in str(w):
+            return True
+    return SV(z3.Or(*parts), "bool") if parts else False
 
 
 @spec
@@ -434,3 +444,31 @@ def best_ok(eng, o, *rest):
     m = LS.lmin(eng, ver)
     return SV(z3.And((ver.length == 0) == isnone,
                      z3.Implies(z3.Not(isnone), z3.And(z3.Select(ver.cnt, rid) >= 1, LS.rval(rid) == m))), "bool")
+
+
+# ------------------------------------------------------------------ slack ancillas (C02)
+@spec
+def slackval(eng, a0, n, log):
+    """value of the slack encoded by the n ancillas '__a<a0>' ... '__a<a0+n-1>' at the ghost assignment"""
+    lg = eng.tobool(log)
+    lg = z3.BoolVal(lg) if isinstance(lg, bool) else lg
+    e = T.slack(zint(a0), zint(n), lg)
+    eng.facts.add(T.slack(zint(a0), z3.IntVal(0), lg) == 0)
+    return SV(e, "int")
+
+
+@spec
+def slackcap(eng, n, log):
+    """largest slack value n ancillas can encode: 2^n - 1 (log trick) or n (unary)"""
+    lg = eng.tobool(log)
+    lg = z3.BoolVal(lg) if isinstance(lg, bool) else lg
+    nn = zint(n)
+    return SV(z3.If(lg, eng.facts.pow2_term(nn) - 1, nn), "int")
+
+
+@spec
+def slack_next(eng, a0, i, log):
+    """unfolds slack(a0, i+1) (used in invariants so that the step law is available)"""
+    lg = eng.tobool(log)
+    lg = z3.BoolVal(lg) if isinstance(lg, bool) else lg
+    return SV(eng.facts.slack_step(zint(a0), zint(i), lg), "int")
